@@ -506,13 +506,13 @@ func replicationCase(t *testing.T, run *vt.Run, c vt.CaseID, rng *rand.Rand) {
 func TestC15(t *testing.T) {
 	run := vt.NewRun("C15", "exploration")
 	run.SetRule("case = (partition ring of 1-20 partitions in any state mix with boundary/generated tokens, key): ActivePartitionForKey and GetKeysByPartition vs the clockwise walk over active partitions; or a history: 1-4 PartitionInstanceLifecyclers (wait count/duration and delete delay at and around the 5 s polling grid, single and multi-partition ownership) plus a PartitionRingEditor issuing state changes (legal and illegal), locks and owner removals on a recording store under the synctest virtual clock, judged by a log checker over every written version with writer identity and virtual commit time (legal edges, no change while locked, automatic promotion only with enough long-registered owners, deletion only of long-inactive ownerless foreign partitions); or a replication-set case against healthy registered owners on a real ring.Ring. non-trivial = mixed states / at least one state edge or deletion / several owners; distinct by content.")
-	run.ForEach("routing", vt.N(1500, 150000), func(c vt.CaseID, rng *rand.Rand, s *vt.Slot) { routingCase(run, c, rng) })
-	run.ForEachT(t, "history", vt.N(1500, 50000), func(t *testing.T, c vt.CaseID, rng *rand.Rand, s *vt.Slot) {
+	run.ForEach("routing", vt.N(1500, 80000), func(c vt.CaseID, rng *rand.Rand, s *vt.Slot) { routingCase(run, c, rng) })
+	run.ForEachT(t, "history", vt.N(1500, 30000), func(t *testing.T, c vt.CaseID, rng *rand.Rand, s *vt.Slot) {
 		s.Enter(c, "crash/history")
 		historyCase(t, run, c, rng)
 		s.Leave()
 	})
-	run.ForEachT(t, "replication", vt.N(3000, 80000), func(t *testing.T, c vt.CaseID, rng *rand.Rand, s *vt.Slot) {
+	run.ForEachT(t, "replication", vt.N(3000, 50000), func(t *testing.T, c vt.CaseID, rng *rand.Rand, s *vt.Slot) {
 		s.Enter(c, "crash/replication")
 		replicationCase(t, run, c, rng)
 		s.Leave()
